@@ -266,7 +266,8 @@ func (p pkt) term() string {
 
 func (p pkt) json(six bool) map[string]any {
 	return map[string]any{"proto": p.Proto, "src": addrOf(p.Src, six).String(), "dst": addrOf(p.Dst, six).String(),
-		"sport": p.Sport, "dport": p.Dport, "in": ifName(p.In), "out": ifName(p.Out), "uid": ownerStr(p.UID), "gid": ownerStr(p.GID)}
+		"sport": p.Sport, "dport": p.Dport, "in": ifName(p.In), "out": ifName(p.Out), "uid": ownerStr(p.UID), "gid": ownerStr(p.GID),
+		"mark": p.Mark, "ct_established": p.Est, "ct_invalid": p.Inv}
 }
 
 func ifName(i uint64) string {
@@ -640,10 +641,12 @@ func runReal(c *config.Config) runResult {
 	return res
 }
 
-func natOnly(rs []rule) []rule {
+func natOnly(rs []rule) []rule { return tableOnly(rs, "nat") }
+
+func tableOnly(rs []rule, tbl string) []rule {
 	var out []rule
 	for _, r := range rs {
-		if r.Table == "nat" {
+		if r.Table == tbl {
 			out = append(out, r)
 		}
 	}
@@ -761,12 +764,40 @@ func TestGen(t *testing.T) {
 			if six {
 				rs = natOnly(res.v6)
 			}
-			for _, hook := range []string{"OUTPUT", "PREROUTING"} {
+			for _, hook := range []string{"OUTPUT", "PREROUTING", "mangle:PREROUTING"} {
 				n := nOut
 				if hook == "PREROUTING" {
 					n = nPre
 				}
+				tbl := "Tnat"
+				if hook == "mangle:PREROUTING" {
+					if !m.TProxy && !m.DropInvalid {
+						continue
+					}
+					hook, tbl, n = "PREROUTING", "Tmangle", nPre
+					rs = tableOnly(res.v4, "mangle")
+					if six {
+						rs = tableOnly(res.v6, "mangle")
+					}
+				}
 				pk := m.genPackets(six, hook, n, sub)
+				if tbl == "Tmangle" {
+					for i := range pk {
+						pk[i].Mark = vlib.Pick(sub, []uint64{0, 0, m.TMark, 1338, 5})
+						pk[i].Est = sub.Chance(35)
+						pk[i].Inv = sub.Chance(20)
+						if sub.Chance(35) {
+							pk[i].In = 0
+						}
+						if sub.Chance(30) {
+							if six {
+								pk[i].Src = big.NewInt(6)
+							} else {
+								pk[i].Src = u32(127, 0, 0, 6)
+							}
+						}
+					}
+				}
 				for i := 0; i < len(pk); i += chunk {
 					j := i + chunk
 					if j > len(pk) {
@@ -780,13 +811,13 @@ func TestGen(t *testing.T) {
 					for _, p := range pk[i:j] {
 						pj = append(pj, p.json(six))
 					}
-					if finding != "" && hook == "PREROUTING" {
+					if finding != "" && hook == "PREROUTING" && tbl == "Tnat" {
 						c.FindingOf[k] = finding
 					}
-					c.Add(vlib.Case{ID: k, Term: vlib.App("Sem", vlib.NI(k), m.term(), vlib.B(six), hook, vlib.ListOf(rs, ruleTerm),
+					c.Add(vlib.Case{ID: k, Term: vlib.App("Sem", vlib.NI(k), m.term(), tbl, vlib.B(six), hook, vlib.ListOf(rs, ruleTerm),
 						vlib.ListOf(pk[i:j], func(p pkt) string { return p.term() })),
-						Tags:   append(tags, "sem", "hook="+hook, fmt.Sprintf("six=%v", six)),
-						Sample: map[string]any{"kind": kind, "config": cc, "ipv6": six, "hook": hook, "nat_rules": texts(rs), "packets": pj},
+						Tags:   append(tags, "sem", "hook="+tbl+":"+hook, fmt.Sprintf("six=%v", six)),
+						Sample: map[string]any{"kind": kind, "config": cc, "ipv6": six, "table": tbl, "hook": hook, "rules": texts(rs), "packets": pj},
 						Trivial: kind == "default"})
 				}
 			}
